@@ -61,22 +61,59 @@ def code_from_blocks(texts, rng, first_tag=1):
     return code, tag
 
 
-def document(seed, nblocks=6, ncontracts=1, with_noasm=True, max_len=14, **kw):
+def _twin_text(t):
+    """A near copy of a block: every PUSH constant and tag number gets one more digit (PUSH 1 -> PUSH 10)."""
+    toks = t.split()
+    out = []
+    i = 0
+    while i < len(toks):
+        if toks[i] == "PUSH" and i + 2 < len(toks) and toks[i + 1] == "[tag]":
+            out += ["PUSH", "[tag]", toks[i + 2] + "1"]; i += 3
+        elif toks[i] == "PUSH" and i + 1 < len(toks) and toks[i + 1] not in ("[tag]", "data", "#[$]", "[$]"):
+            out += ["PUSH", (toks[i + 1] + "0")[-64:]]; i += 2
+        else:
+            out.append(toks[i]); i += 1
+    return " ".join(out)
+
+
+FAILING_BLOCKS = ["PC DUP1 ADD SWAP1 POP", "PC PUSH 1 ADD"]     # the front end raises on the value of PC
+
+
+def document(seed, nblocks=6, ncontracts=1, with_noasm=True, max_len=14, multi_data=None, twin=False, failing=False, **kw):
+    """multi_data: the creation assembly has two code-bearing entries under .data (a contract deploying another one);
+    twin: a second contract with the same short name in another source file whose blocks are near copies;
+    failing: one runtime block on which specification generation raises."""
     rng = random.Random(seed)
     contracts = {}
+    first_blocks = None
     for c in range(ncontracts):
         init = blockgen.gen_blocks(rng.getrandbits(32), max(1, nblocks // 3), max_len=max_len, allow_terminal=False, **kw)
         runb = blockgen.gen_blocks(rng.getrandbits(32), nblocks, max_len=max_len, allow_terminal=False, **kw)
+        if failing and c == 0:
+            runb.insert(rng.randint(1, max(1, len(runb) - 1)), rng.choice(FAILING_BLOCKS))
+        if first_blocks is None:
+            first_blocks = (init, runb)
         icode, tag = code_from_blocks(init, rng)
         rcode, tag = code_from_blocks(runb, rng, tag)
         data = {"0": {".auxdata": "a264697066735822%040x" % rng.getrandbits(160), ".code": rcode}}
         if rng.random() < 0.4:
             sub, _ = code_from_blocks(blockgen.gen_blocks(rng.getrandbits(32), 2, max_len=8, allow_terminal=False), rng, 50)
             data["0"][".data"] = {"0": {".auxdata": "a2646970", ".code": sub}, "A1B2": "6080604052"}
+        if multi_data if multi_data is not None else rng.random() < 0.35:
+            sub, _ = code_from_blocks(blockgen.gen_blocks(rng.getrandbits(32), 3, max_len=10, allow_terminal=False), rng, 70)
+            data["1"] = {".auxdata": "a264697066735822%040x" % rng.getrandbits(160), ".code": sub}
+            if rng.random() < 0.5:
+                data["1"][".data"] = {"C3D4": "60806040"}
         asm = {".code": icode, ".data": data}
         if rng.random() < 0.5:
             asm["sourceList"] = ["contracts/C%d.sol" % c, "#utility.yul"]
         contracts["contracts/C%d.sol:C%d" % (c, c)] = {"asm": asm}
+    if twin and first_blocks:
+        init, runb = first_blocks
+        icode, tag = code_from_blocks([_twin_text(t) for t in init], rng)
+        rcode, tag = code_from_blocks([_twin_text(t) for t in runb], rng, tag)
+        contracts["v2/C0.sol:C0"] = {"asm": {".code": icode, ".data": {"0": {".auxdata": "a264697066735822%040x" % rng.getrandbits(160),
+                                                                           ".code": rcode}}}}
     if with_noasm:
         contracts["contracts/I.sol:I"] = {"asm": None}
     return {"contracts": contracts, "version": "0.8.17+commit.8df45f5f.Linux.g++"}
